@@ -422,7 +422,12 @@ def cel(rng, d=0) -> str:
         return rng.choice(LITS)
     sub = lambda: cel(rng, d + 1)  # noqa: E731
     shape = rng.choice(["dot", "dot", "index", "index", "call", "method", "macro", "list", "map", "msg", "paren",
-                        "unary", "binop", "binop", "cond", "has", "dotchain"])
+                        "unary", "binop", "binop", "cond", "has", "dotchain", "rootindex"])
+    if shape == "rootindex":
+        # an index directly on a root name, with a literal of every kind (what the dependency patterns see)
+        key = rng.choice(LITS + ["''", "'.a'", "'['", "'a.b'", "'a[0]'", "' '", "'steps'", "-1", "1.5", "0.0", "b''"])
+        tail = rng.choice(["", "", f".{rng.choice(FIELDS)}", f"[{rng.choice(LITS)}]"])
+        return f"{rng.choice(ROOTS)}[{key}]{tail}"
     if shape == "dot":
         return f"{sub()}.{rng.choice(FIELDS)}"
     if shape == "dotchain":
@@ -964,6 +969,8 @@ def defect_probes():
         ("FunctionTest", ft({"expectOutcome": {"retry": {"message": "m", "delay": 30.0}}})),
         ("FunctionTest", ft({"expectOutcome": {"retry": {"message": "m", "delay": 1e3}}})),
         ("Workflow", step(forEach={"itemIn": "=[1]", "inputKey": "k", "condition": "boom"})),
+        ("Workflow", step(inputs={"a": "=steps[1.5]"})),
+        ("Workflow", step(skipIf="=steps['.a'] || steps['[']", state={"s": "=steps[''] + parent['']"})),
         ("Workflow", step(forEach={"itemIn": "=[1]", "inputKey": "k", "condition": [1]})),
         ("ResourceFunction", rf({"apiVersion": "apps/v1", "kind": "Deployment.apps", "name": "n", "namespace": "n"})),
         ("ResourceFunction", rf({"apiVersion": "a/b/c", "kind": "Thing", "name": "n", "namespace": "n"})),
